@@ -75,57 +75,62 @@ impl Engine for C20Engine {
     }
 }
 
+impl C09Engine {
+    fn parts(&self) -> [(&'static str, &'static dyn Engine); 3] {
+        [("e1", &crate::e1::E1), ("e5", &crate::e5::E5), ("e4", &crate::e4::E4)]
+    }
+    fn part_of(&self, tag: &str) -> &'static dyn Engine {
+        self.parts().iter().find(|p| p.0 == tag).map(|p| p.1).unwrap_or(&crate::e1::E1)
+    }
+}
+
 impl Engine for C09Engine {
     fn name(&self) -> &'static str {
-        "E1 api-sim + E5 insn-sim"
+        "E1 api-sim + E5 insn-sim + E4 load-sim"
     }
     fn runs(&self, prop: &str, thorough: bool) -> u64 {
-        crate::e1::E1.runs(prop, thorough) + crate::e5::E5.runs(prop, thorough)
+        self.parts().iter().map(|p| p.1.runs(prop, thorough)).sum()
     }
     fn gen(&self, prop: &str, thorough: bool, seed: u64, idx: u64) -> Value {
-        let n1 = crate::e1::E1.runs(prop, thorough);
-        if idx < n1 {
-            json!({"e": "e1", "sc": crate::e1::E1.gen(prop, thorough, seed, idx)})
-        } else {
-            json!({"e": "e5", "sc": crate::e5::E5.gen(prop, thorough, seed, idx - n1)})
+        let mut base = 0;
+        for (tag, e) in self.parts() {
+            let n = e.runs(prop, thorough);
+            if idx < base + n {
+                return json!({"e": tag, "sc": e.gen(prop, thorough, seed, idx - base)});
+            }
+            base += n;
         }
+        json!({"e": "e1", "sc": crate::e1::E1.gen(prop, thorough, seed, 0)})
     }
     fn exec(&self, prop: &str, sc: &Value, ctx: &mut Ctx) {
-        if sc["e"] == "e1" {
-            crate::e1::E1.exec(prop, &sc["sc"], ctx)
-        } else {
-            crate::e5::E5.exec(prop, &sc["sc"], ctx)
-        }
+        self.part_of(sc["e"].as_str().unwrap_or("e1")).exec(prop, &sc["sc"], ctx)
     }
     fn shrink(&self, prop: &str, sc: &Value) -> Vec<Value> {
         let e = sc["e"].clone();
-        let inner = if e == "e1" { crate::e1::E1.shrink(prop, &sc["sc"]) } else { crate::e5::E5.shrink(prop, &sc["sc"]) };
-        inner.into_iter().map(|x| json!({"e": e.clone(), "sc": x})).collect()
+        self.part_of(e.as_str().unwrap_or("e1")).shrink(prop, &sc["sc"]).into_iter().map(|x| json!({"e": e.clone(), "sc": x})).collect()
     }
     fn crash_context(&self, prop: &str, sc: &Value) -> String {
-        if sc["e"] == "e1" {
-            crate::e1::E1.crash_context(prop, &sc["sc"])
-        } else {
-            crate::e5::E5.crash_context(prop, &sc["sc"])
-        }
+        self.part_of(sc["e"].as_str().unwrap_or("e1")).crash_context(prop, &sc["sc"])
     }
     fn components(&self) -> (Vec<&'static str>, Vec<&'static str>) {
-        let (mut a, mut b) = crate::e1::E1.components();
-        let (c, d) = crate::e5::E5.components();
-        a.extend(c);
-        b.extend(d);
+        let mut a: Vec<&'static str> = Vec::new();
+        let mut b: Vec<&'static str> = Vec::new();
+        for (_, e) in self.parts() {
+            let (x, y) = e.components();
+            a.extend(x);
+            b.extend(y);
+        }
+        a.sort();
         a.dedup();
         b.sort();
         b.dedup();
         (a, b)
     }
     fn rule(&self, prop: &str) -> String {
-        format!("{} || {}", crate::e1::E1.rule(prop), crate::e5::E5.rule(prop))
+        self.parts().iter().map(|p| p.1.rule(prop)).collect::<Vec<_>>().join(" || ")
     }
     fn assumptions(&self, prop: &str) -> Vec<String> {
-        let mut a = crate::e1::E1.assumptions(prop);
-        a.extend(crate::e5::E5.assumptions(prop));
-        a
+        self.parts().iter().flat_map(|p| p.1.assumptions(prop)).collect()
     }
     fn level(&self, _prop: &str) -> &'static str {
         "fault_enumeration"
